@@ -1,3 +1,5 @@
 //! tpverif: property-based testing / fuzzing machinery for trust-platform.
 pub mod engine;
 pub mod props;
+pub mod stgen;
+pub mod stref;
